@@ -66,6 +66,10 @@ def qualname(obj):
             return repr(obj)
 
 class OverrideableDataDesc(object):
+    # per-object state kept out of __dict__: functools.update_wrapper copies
+    # the __dict__ of the object it is given onto its target
+    __slots__ = ('custom_getter', 'insts', '__dict__', '__weakref__')
+
     def __init__(self, *args, **kwargs):
         original = kwargs.pop('original', None)
         if original is not None:
